@@ -1,27 +1,26 @@
 (* C37: the theorems about runs, restated on the comparer's cases (Corr/C37.v): the model's run
    of a case under the deterministic scheduler is a fine-grained run, so every invariant applies,
-   and [known_class c = 0] is exactly [stolen = false] in that run. *)
+   and the run is one of the repaired protocol (fx = true), for which no finding class is left. *)
 From Coq Require Import ZArith List Bool.
-From TV Require Import Lib.Interleave Model.GroupCommit Corr.C37 Proof.GroupCommitSafe.
+From TV Require Import Lib.Interleave Model.GroupCommit Corr.C37 Proof.GroupCommitSafe Proof.GroupCommitRepair.
 Import ListNotations.
 Open Scope Z_scope.
 
-Lemma case_is_run c : exists fx progs fine, fst (final_and_obs c) = run (step fx) fine (init progs).
+Lemma case_is_run c : exists progs fine, fst (final_and_obs c) = run (step true) fine (init progs).
 Proof.
-  destruct c as [fx progs steps lg res fl dr pb]. cbn [final_and_obs].
-  rewrite exec_obs_fst. destruct (exec_is_run fx true (sched_of steps) (init (to_progs progs))) as [fine H].
-  exists fx, (to_progs progs), fine. exact H.
+  destruct c as [progs steps lg res fl dr pb]. cbn [final_and_obs].
+  rewrite exec_obs_fst. destruct (exec_is_run true true (sched_of steps) (init (to_progs progs))) as [fine H].
+  exists (to_progs progs), fine. exact H.
 Qed.
 
-Lemma case_outside_known_class_l :
-  forall c, known_class c = 0 ->
+(* for every case (programs + schedule, as the harness runs them under the deterministic
+   scheduler) the model's run logs nothing twice and acknowledges only written commits *)
+Lemma case_property_l :
+  forall c,
     let s := sh (fst (final_and_obs c)) in
     NoDup (log s) /\ forall a, In a (acks s) -> ack_good s a /\ (In (a_id a) (att_fail s) -> a_res a <> ROk).
 Proof.
-  intros c Hk s. unfold known_class in Hk. fold s in Hk.
-  assert (Hs : stolen s = false) by (destruct (stolen s); [discriminate | reflexivity]).
-  destruct (case_is_run c) as [fx [progs [fine Hr]]]. unfold s in *. rewrite Hr in *.
-  split; [apply written_at_most_once_l|]. intros a Ha. split.
-  - apply (written_before_ack_l fx progs fine Hs a Ha).
-  - apply (failure_reaches_members_l fx progs fine Hs a Ha).
+  intros c s. destruct (case_is_run c) as [progs [fine Hr]]. unfold s. rewrite Hr.
+  split; [apply written_at_most_once_l|]. intros a Ha.
+  apply (repair_written_before_ack_l progs fine a Ha).
 Qed.
